@@ -314,7 +314,8 @@ func runHs(t *testing.T, ksc KScenario, res *KResult) {
 			for _, rec := range w.Log[0] {
 				if rec.Hash == hsh {
 					for _, p := range rec.Pkts {
-						if p.Opened && p.Type == TapHandshake {
+						// (the same rule as for genuine deliveries: a Handshake packet, or an Initial with a valid token)
+						if p.Opened && (p.Type == TapHandshake || (p.Type == TapInitial && len(p.Token) > 0 && (tokenValid || !bytes.Equal(p.Token, presented)))) {
 							ampValid[rec.Client] = true
 						}
 					}
